@@ -144,3 +144,45 @@ Definition s_method : str := of_string "method".
 Definition check_labels (free : list str) : option (bool * bool) :=
   if forallb (fun n => str_eqb n s_code || str_eqb n s_method) free
   then Some (str_in s_code free, str_in s_method free) else None.
+
+(* ---------- stacked middlewares with label layouts ---------- *)
+(* A middleware's vector has the free labels "code" and/or "method" plus labels derived from the request
+   context (WithLabelFromCtx).  Every request is counted once, under the label tuple derived from the request
+   alone; middlewares stacked around the same handler do not influence each other (instrument_server.go:
+   labels(), the context-label loop in every InstrumentHandler function). *)
+Record layout := mkLay { l_code : bool; l_method : bool; l_ctx : list str }.
+Record request := mkReq { r_method : str; r_status : Z; r_ctx : list (str * str) }.
+
+Definition ctx_value (ctx : list (str * str)) (n : str) : str :=
+  match find (fun p => str_eqb (fst p) n) ctx with Some p => snd p | None => [] end.
+
+Definition req_labels (lay : layout) (extra : list str) (q : request) : list (str * str) :=
+  (if l_code lay then [(s_code, sanitize_code (r_status q))] else []) ++
+  (if l_method lay then [(s_method, sanitize_method (r_method q) extra)] else []) ++
+  map (fun n => (n, ctx_value (r_ctx q) n)) (l_ctx lay).
+
+Fixpoint labels_eqb (a b : list (str * str)) : bool :=
+  match a, b with
+  | [], [] => true
+  | (n, v) :: a', (n', v') :: b' => str_eqb n n' && str_eqb v v' && labels_eqb a' b'
+  | _, _ => false
+  end.
+
+(* the children of a counter vector: label tuple -> count *)
+Fixpoint bump (ls : list (str * str)) (st : list (list (str * str) * Z)) : list (list (str * str) * Z) :=
+  match st with
+  | [] => [(ls, 1)]
+  | (k, c) :: t => if labels_eqb k ls then (k, c + 1) :: t else (k, c) :: bump ls t
+  end.
+Fixpoint lookup_child (ls : list (str * str)) (st : list (list (str * str) * Z)) : Z :=
+  match st with
+  | [] => 0
+  | (k, c) :: t => if labels_eqb k ls then c else lookup_child ls t
+  end.
+Definition children_from (lay : layout) (extra : list str) (qs : list request) (st : list (list (str * str) * Z)) :=
+  fold_left (fun st q => bump (req_labels lay extra q) st) qs st.
+Definition children (lay : layout) (extra : list str) (qs : list request) := children_from lay extra qs [].
+Definition total_count (st : list (list (str * str) * Z)) : Z := fold_right Z.add 0 (map snd st).
+(* a stack of middlewares: each one's children depend on its own layout only *)
+Definition stack_children (lays : list layout) (extra : list str) (qs : list request) :=
+  map (fun lay => children lay extra qs) lays.
